@@ -23,8 +23,10 @@ for _b in (8, 16, 32, 64, 128):
 
 
 class Native:
-    def __init__(self, log_dir):
+    def __init__(self, log_dir, crate="native", binname="vnative"):
         self.log_dir = log_dir
+        self.crate = crate
+        self.binname = binname
         self.bin = None
         self.build_error = None
         self.calls = 0
@@ -32,7 +34,7 @@ class Native:
     def ensure(self):
         if self.bin or self.build_error:
             return
-        d = os.path.join(VERIF, "native")
+        d = os.path.join(VERIF, self.crate)
         try:
             shutil.copyfile(os.path.join(REPO, "Cargo.lock"), os.path.join(d, "Cargo.lock"))
         except OSError:
@@ -40,13 +42,13 @@ class Native:
         env = dict(os.environ)
         env["CARGO_NET_OFFLINE"] = "true"
         env.pop("RUSTFLAGS", None)
-        tdir = os.path.join(WORK, "native-target")
+        tdir = os.path.join(WORK, self.crate.replace("_", "-") + "-target")
         p = subprocess.run(["cargo", "build", "--offline", "--target-dir", tdir], cwd=d, env=env, capture_output=True, text=True)
-        open(os.path.join(self.log_dir, "native-build.log"), "w").write(p.stdout + p.stderr)
+        open(os.path.join(self.log_dir, self.crate + "-build.log"), "w").write(p.stdout + p.stderr)
         if p.returncode != 0:
             self.build_error = (p.stdout + p.stderr)[-2000:]
         else:
-            self.bin = os.path.join(tdir, "debug", "vnative")
+            self.bin = os.path.join(tdir, "debug", self.binname)
 
     def call(self, key, args):
         return self.batch([(key, args)])[0]
@@ -74,7 +76,7 @@ def ev(t, model):
     funs = dict(FUNS)
     for k, v in (model or {}).items():
         if isinstance(v, dict):
-            funs[k] = (lambda d: (lambda i: d.get(i, d.get(str(i), 0))))(v)
+            funs[k] = (lambda d: (lambda *a: (lambda key: d.get(key, d.get(str(key), 0)))(a[0] if len(a) == 1 else tuple(a))))(v)
     return T.evaluate(t, _Default(model), funs)
 
 
@@ -127,6 +129,8 @@ def replay_model(sess, native, r):
             enc = "panic" if pan else outs
             calls.append({"key": reg["key"], "args": args, "native": got, "encoding": enc})
             if got != enc:
+                if reg.get("oracle"):
+                    return {"status": "reproduced", "kind": "native reference check: the real function disagrees with the definition on this scenario", "calls": calls}
                 return {"status": "encoding-mismatch", "calls": calls}
         assum = all(bool(ev(a, model)) for a in r.get("assumptions_terms", []))
         side = all(bool(ev(a, model)) for a in r.get("side_terms", []))
